@@ -136,6 +136,24 @@ func (v *Verifier) effectObligations(cu *FuncUnit, con *Contract, name string) [
 				}
 				return true
 			})
+		case strings.HasPrefix(txt, "no_recover"):
+			// no function of the repository reachable from this one calls recover(): a failure in front of the first
+			// write is never swallowed - it ends the run (panic) or comes back as an error
+			var where []string
+			for _, c := range v.reachable([]*FuncUnit{cu}) {
+				info := c.Pkg.TypesInfo
+				ast.Inspect(c.Decl.Body, func(n ast.Node) bool {
+					if call, ok := n.(*ast.CallExpr); ok {
+						if id, ok := call.Fun.(*ast.Ident); ok && id.Name == "recover" {
+							if _, isBuiltin := info.Uses[id].(*types.Builtin); isBuiltin {
+								where = append(where, v.unitName(c)+" ("+posStr(v.fset, call.Pos())+")")
+							}
+						}
+					}
+					return true
+				})
+			}
+			add("effect:no_recover", cl.Text, len(where) == 0, cu.Decl.Pos(), cl.Props, "recover() is called in "+strings.Join(where, ", "))
 		case strings.HasPrefix(txt, "io_only"):
 			allowed := map[string]bool{}
 			for _, a := range splitCommaTop(txt[7:]) {
